@@ -59,7 +59,7 @@ func (p *FullIntraRequest) Unmarshal(rawPacket []byte) error {
 		return err
 	}
 
-	if len(rawPacket) < (headerLength + int(4*h.Length)) {
+	if len(rawPacket) < (headerLength + 4*int(h.Length)) {
 		return errPacketTooShort
 	}
 
@@ -68,13 +68,13 @@ func (p *FullIntraRequest) Unmarshal(rawPacket []byte) error {
 	}
 
 	// The FCI field MUST contain one or more FIR entries
-	if 4*h.Length-firOffset <= 0 || (4*h.Length)%8 != 0 {
+	if 4*int(h.Length)-firOffset <= 0 || (4*int(h.Length))%8 != 0 {
 		return errBadLength
 	}
 
 	p.SenderSSRC = binary.BigEndian.Uint32(rawPacket[headerLength:])
 	p.MediaSSRC = binary.BigEndian.Uint32(rawPacket[headerLength+ssrcLength:])
-	for i := headerLength + firOffset; i < (headerLength + int(h.Length*4)); i += 8 {
+	for i := headerLength + firOffset; i < (headerLength + 4*int(h.Length)); i += 8 {
 		p.FIR = append(p.FIR, FIREntry{
 			binary.BigEndian.Uint32(rawPacket[i:]),
 			rawPacket[i+4],
